@@ -124,6 +124,27 @@ func standardEntities(ep *Endpoint, w Win, extra []int64) []Entity {
 			rts = append(rts, r)
 		}
 	}
+	if ep.Sparse() {
+		// sparse range query: the edges (at millisecond distance: the unit of the step filter), the middle and the gap
+		// of the range windows of the first evaluation instants, of one in the middle and of the last ones
+		step, rng, off := int64(ep.Step), int64(ep.Range), int64(ep.Offset)
+		e0, n := evalStart(ep, w), (evalEnd(ep, w)-evalStart(ep, w))/int64(ep.Step)
+		ks := map[int64]bool{}
+		for _, k := range []int64{0, 1, 2, n / 2, n - 1, n} {
+			if k < 0 || k > n || ks[k] {
+				continue
+			}
+			ks[k] = true
+			te := e0 + k*step - off
+			for _, r := range []rt{{"sub-lo-1ms", te - rng - 1e6}, {"sub-lo", te - rng}, {"sub-lo+1ms", te - rng + 1e6}, {"sub-mid", te - rng/2}, {"sub-hi-1ms", te - 1e6}, {"sub-hi", te},
+				{"sub-hi+1ms", te + 1e6}, {"sub-gap", te + (step-rng)/2}} {
+				if !seen[r.ts] {
+					seen[r.ts] = true
+					rts = append(rts, r)
+				}
+			}
+		}
+	}
 	for i, e := range extra {
 		rts = append(rts, rt{fmt.Sprintf("extra%d", i), e})
 	}
@@ -488,6 +509,13 @@ func judge(ep *Endpoint, cluster string, w Win, wloc *time.Location, o *Obs) []F
 				sts := rowTs(table, e)
 				interior := hasTs && sts > f && sts < t
 				for _, c := range classes {
+					// the step filter (Window.tla PhaseMiss): a row strictly inside the window AND inside the range window
+					// of an evaluation instant, which the other predicates of the scan admit and the step filter rejects
+					if te, ok := subWindow(ep, w, sts); c.PhaseF != nil && ep.Sparse() && interior && ok && !c.PhaseF.Admits(sts) && boundsAdmit(c, e, day, hasTs, hasDate) {
+						fs = append(fs, mk("miss", "step-filter", "ph", "scan+bounds+response", table, e,
+							fmt.Sprintf("row at %d (stored timestamp %d) lies in the range window [%d, %d] of the evaluation at %d (step %s, range %s, offset %s) and is rejected by %s", e.TsNs, sts,
+								te-int64(ep.Range), te, te+int64(ep.Offset), ep.Step, ep.Range, ep.Offset, c.PhaseF.Text)))
+					}
 					for _, b := range c.Bounds {
 						switch {
 						case hasDate && b.Col == "date" && b.Op == "ge" && day < b.Day, hasDate && b.Col == "date" && b.Op == "le" && day > b.Day:
